@@ -1031,9 +1031,52 @@ def c10_props_case(vals):
     return None
 
 
+@replayer
+def c10_frame_case(kind, payload, ch):
+    """any frame object: encoding raises, or the bytes decode back to it"""
+    if kind == 'proto':
+        f = header.ProtocolHeader(*payload)
+    elif kind == 'body':
+        f = body.ContentBody(payload)
+    else:
+        f = heartbeat.Heartbeat()
+    k, b = catching(frame.marshal, f, ch)
+    if k != 'ok':
+        return None
+    k2, r = catching(frame.unmarshal, b)
+    if k2 != 'ok':
+        return ('decodable', '%s %r' % (k2, r))
+    f2 = r[2]
+    if kind == 'proto':
+        ok = isinstance(f2, header.ProtocolHeader) and (f2.major_version, f2.minor_version, f2.revision) == tuple(payload)
+    elif kind == 'body':
+        ok = isinstance(f2, body.ContentBody) and f2.value == payload and r[1] == ch
+    else:
+        ok = isinstance(f2, heartbeat.Heartbeat)
+    return None if ok and r[0] == len(b) else ('the same %s frame' % kind, lanes.frame_sx(f2)[:200])
+
+
 def oracle_c10(ctx):
     res = Result('c10.no_silent_corruption')
     g = ctx.gen
+    triples = set()
+    for x in range(256):
+        triples |= {(x, 9, 1), (0, x, 1), (0, 9, x), (0, x, 0), (x, 0, 0), (1, 1, x), (x, x, x)}
+    triples |= {(g.r.randrange(256), g.r.randrange(256), g.r.randrange(256)) for _ in range(500)}
+    triples |= {(256, 0, 0), (0, -1, 0), (0, 0, 300)}
+    for t_ in sorted(triples):
+        res.case('proto %r' % (t_,), tag='protocol header')
+        k, bad = catching(c10_frame_case, 'proto', t_, 0)
+        if k != 'ok' or bad:
+            res.violation('protocol header %r' % (t_,), {'fn': 'c10_frame_case', 'args': pyrepr(('proto', t_, 0))},
+                          bad[0] if k == 'ok' else 'oracle runs', bad[1] if k == 'ok' else repr(bad))
+    for content in [b'', b'\xce', b'AMQP', bytes(range(256)), b'x' * 4096, bytearray(b'ab')]:
+        for ch_ in (0, 1, 65535, 65536, -1):
+            res.case('body %r %d' % (bytes(content[:8]), ch_), tag='body')
+            k, bad = catching(c10_frame_case, 'body', content, ch_)
+            if k != 'ok' or bad:
+                res.violation('body frame', {'fn': 'c10_frame_case', 'args': pyrepr(('body', content, ch_))},
+                              bad[0] if k == 'ok' else 'oracle runs', bad[1] if k == 'ok' else repr(bad))
     n = 25000 if ctx.thorough else 4000
     specials = [D('-1.5'), D('1E-7'), D('1.5E-7'), -1, -128, 0, '', [], {}, D('0E-3'), D('-0.0'), D('1E+2'), D('12345678901'),
                 D('-2147483648'), D('2147483648'), D('1E-256'), 2 ** 63, -2 ** 63 - 1, 1e39, float('nan'), {'a': 0}, [0, '']]
